@@ -81,6 +81,7 @@ def run(ctx):
             try: Qm, Rm = qsvd.qr_qua(An)
             except Exception as e: viol(f'C06:raises{tag}', f'qr_qua raised {e!r}', inp); continue
             finally: qsvd.qr = orig_qr
+            if not cm.all_finite(Qm, Rm): viol(f'C06:nonfinite{tag}', 'qr_qua returned NaN / inf', inp); continue
             if Qm.shape != (m, r) or Rm.shape != (r, n): viol(f'C06:shape{tag}', 'wrong factor shapes', inp, (Qm.shape, Rm.shape), ((m, r), (r, n))); continue
             sc = max(1.0, fro(An))
             er = fro(utils.quat_matmat(Qm, Rm) - An); eo = fro(utils.quat_matmat(utils.quat_hermitian(Qm), Qm) - utils.quat_eye(r))
